@@ -14,6 +14,7 @@ import json
 from hypothesis import strategies as st
 
 from gen import subjects as S
+from gen.subjects import pick, picks
 from harness import core
 from oracle import markmodel as mm
 from oracle import tsref
@@ -379,22 +380,22 @@ def an_op(draw, version, form, usable, related, is_md):
         if not usable or (allow_none and draw(st.integers(0, 3)) == 0):
             return None
         pool = related if related and draw(st.booleans()) else usable
-        return draw(st.lists(st.sampled_from(pool), min_size=1, max_size=max_n, unique=True))
+        return picks(draw, pool, 1, max_n)
 
     def markings(sels, max_n=2):
         pool = S.MARKING_IDS + (S.LANGS if version == "2.1" and sels is not None else [])
         if version == "2.1" and sels is not None and draw(st.integers(0, 3)) == 0:
             pool = S.LANGS + S.MARKING_IDS[:1]
-        return draw(st.lists(st.sampled_from(pool), min_size=1, max_size=max_n, unique=True))
+        return picks(draw, pool, 1, max_n)
 
-    kind = draw(st.sampled_from(["add"] * 5 + ["remove"] * 3 + ["clear"] * 2 + ["set"] * 2 + ["get"] * 5 + ["is_marked"] * 6 +
-                                ["law_idem", "law_order", "law_add_remove"]))
+    kind = pick(draw, ["add"] * 5 + ["remove"] * 3 + ["clear"] * 2 + ["set"] * 2 + ["get"] * 5 + ["is_marked"] * 6 +
+                                ["law_idem", "law_order", "law_add_remove"])
     op = {"op": kind}
     if form == "object":
-        op["api"] = draw(st.sampled_from(["function", "method"]))
+        op["api"] = pick(draw, ["function", "method"])
     if kind in ("add", "remove", "set", "clear"):
         op["selectors"] = selectors()
-        op["clock"] = draw(st.sampled_from(CLOCKS))
+        op["clock"] = pick(draw, CLOCKS)
         op["single"] = draw(st.booleans())
         if kind != "clear":
             op["markings"] = markings(op["selectors"])
@@ -408,12 +409,12 @@ def an_op(draw, version, form, usable, related, is_md):
         op["single"] = draw(st.booleans())
         if op["selectors"] is not None:
             op.update({"inherited": draw(st.booleans()), "descendants": draw(st.booleans()),
-                       "marking_ref": draw(st.integers(0, 3)) != 0, "lang": draw(st.integers(0, 3)) != 0})
+                       "marking_ref": draw(st.integers(0, 2)) != 0, "lang": draw(st.integers(0, 2)) != 0})
     elif kind == "is_marked":
         op["selectors"] = selectors(max_n=2)
         op["single"] = draw(st.booleans())
         pool = S.MARKING_IDS[:3] + (S.LANGS[:2] if version == "2.1" and op["selectors"] is not None else [])
-        op["marking"] = draw(st.one_of(st.none(), st.sampled_from(pool), st.sampled_from(pool)))
+        op["marking"] = None if draw(st.integers(0, 2)) == 0 else pick(draw, pool)
         op["as_object"] = draw(st.integers(0, 3)) == 0
         if op["selectors"] is not None:
             op.update({"inherited": draw(st.booleans()), "descendants": draw(st.booleans())})
@@ -421,7 +422,7 @@ def an_op(draw, version, form, usable, related, is_md):
         op["selectors"] = selectors()
         op["markings"] = markings(op["selectors"], 1 if kind != "law_idem" else 2)
         op["single"] = False
-        op["clock"] = draw(st.sampled_from(CLOCKS))
+        op["clock"] = pick(draw, CLOCKS)
         if kind == "law_order":
             op["selectors2"] = selectors() if op["selectors"] is not None else None
             op["markings2"] = markings(op["selectors2"], 1)
@@ -430,8 +431,8 @@ def an_op(draw, version, form, usable, related, is_md):
 
 @st.composite
 def history(draw, max_ops=25):
-    version = draw(st.sampled_from(S.VERSIONS))
-    form = draw(st.sampled_from(["object", "dict"]))
+    version = pick(draw, S.VERSIONS)
+    form = pick(draw, ["object", "dict"])
     is_md = draw(st.integers(0, 7)) == 0
     if is_md:
         base = S.marking_definition(version, 4)
@@ -440,9 +441,15 @@ def history(draw, max_ops=25):
     else:
         base = draw(S.prefix_subject(version))
     usable, _ = usable_selectors(base, form)
-    related = [s for s in usable if any(mm.prefix_related_but_not_tree_related(s, p) or mm.is_ancestor(s, p) or mm.is_ancestor(p, s) for p in usable)]
+    rel = set()
+    for a in usable:
+        for b in usable:
+            if a is not b and b.startswith(a):      # a character prefix covers ancestors as well as prefix-named siblings
+                rel.add(a)
+                rel.add(b)
+    related = [s for s in usable if s in rel]
     subject = draw(S.initial_markings(base, version, related or usable))
-    ops = draw(st.lists(an_op(version, form, usable, related, is_md), min_size=draw(st.sampled_from([1, 3, 8])), max_size=max_ops))
+    ops = draw(st.lists(an_op(version, form, usable, related, is_md), min_size=pick(draw, [1, 3, 8]), max_size=max_ops))
     return {"version": version, "form": form, "subject": subject, "ops": ops}
 
 
@@ -470,8 +477,8 @@ def run(ctx):
             ctx.exclude("path-not-used:c08-" + feat, n)
         ctx.handle(case, fails)
 
-    core.run_given(ctx, history(), body, ctx.n(2600, 22000), label="c07-histories")
-    if not ctx.violations:
+    core.run_given(ctx, history(), body, ctx.n(2600, 18000), label="c07-histories")
+    if not ctx.violations and ctx.evaluations >= 1000:
         need = ["op:%s:%s" % (k, lv) for k in ("add", "remove", "set", "clear", "get", "is_marked") for lv in ("object", "granular")]
         need += ["op:law_idem", "op:law_order", "op:law_add_remove", "form:dict", "form:object", "version:2.0", "version:2.1", "api:method",
                  "api:function", "lang-marking", "marking-as-object", "subject:marking-definition", "query-on-prefix-sibling"]
